@@ -574,3 +574,116 @@ theorem loop_settles2 (swr : Swr) (env : Env) (w : World) (sc : Sched) (r : Sett
         · rw [← Option.some.inj hu]; exact hv0
 
 end Kvass.Loop
+
+namespace Kvass.Loop
+open Kvass Kvass.Coord Kvass.Spec
+open Classical
+
+/-- **after the repairing step the reports are converged**: every reported target is in normal state,
+    no target is reported by two running sidecars, and every target that was reported before is still
+    reported by somebody -/
+theorem loop_settles2_converged (swr : Swr) (env : Env) (w : World) (sc : Sched) (r : Settled2 swr env w) :
+    let w' := step swr env w (.cycle sc [] false)
+    w'.replicas = w.replicas ∧
+    (∀ (i : Nat) (sh' : Shard) (h : Hash) (v : St), i < w.replicas → w'.shards[i]? = some sh' →
+      (statusOf sh').get h = some v → v.state = .normal) ∧
+    (∀ (i j : Nat) (shi shj : Shard) (h : Hash), i < w.replicas → j < w.replicas → i ≠ j →
+      w'.shards[i]? = some shi → w'.shards[j]? = some shj →
+      (statusOf shi).has h = true → (statusOf shj).has h = true → False) ∧
+    (∀ (i : Nat) (sh : Shard) (h : Hash), w.running[i]? = some sh → (statusOf sh).has h = true →
+      ∃ (d : Nat) (shd : Shard), d < w.replicas ∧ w'.shards[d]? = some shd ∧ (statusOf shd).has h = true) := by
+  intro w'
+  obtain ⟨hrepl, _, hall⟩ := loop_settles2 swr env w sc r
+  have hrl := running_length w r.rep
+  have hrunOf : ∀ i, i < w.replicas → ∃ sh, w.running[i]? = some sh := by
+    intro i hi
+    have : i < w.running.length := by rw [hrl]; exact hi
+    exact ⟨w.running[i], by simp [this]⟩
+  refine ⟨hrepl, ?_, ?_, ?_⟩
+  · intro i sh' h v hi hs hv
+    obtain ⟨sh, hrun⟩ := hrunOf i hi
+    obtain ⟨sh'', hs'', _, hnorm⟩ := hall i sh hrun
+    have e : sh'' = sh' := by
+      have : w'.shards[i]? = some sh'' := hs''
+      rw [hs] at this; exact (Option.some.inj this).symm
+    subst e
+    exact hnorm h v hv
+  · intro i j shi shj h hi hj hij hsi hsj hhi hhj
+    obtain ⟨si, hri⟩ := hrunOf i hi
+    obtain ⟨sj, hrj⟩ := hrunOf j hj
+    obtain ⟨si', hsi', hki, _⟩ := hall i si hri
+    obtain ⟨sj', hsj', hkj, _⟩ := hall j sj hrj
+    have ei : si' = shi := by
+      have : w'.shards[i]? = some si' := hsi'
+      rw [hsi] at this; exact (Option.some.inj this).symm
+    have ej : sj' = shj := by
+      have : w'.shards[j]? = some sj' := hsj'
+      rw [hsj] at this; exact (Option.some.inj this).symm
+    subst ei; subst ej
+    obtain ⟨vi, hvi, hni1, hni2⟩ := (hki h).mp ((AL.mem_keys_iff _ _).mpr ((AL.has_iff _ _).mp hhi))
+    obtain ⟨vj, hvj, hnj1, hnj2⟩ := (hkj h).mp ((AL.mem_keys_iff _ _).mpr ((AL.has_iff _ _).mp hhj))
+    have hasi : (statusOf si).has h = true := (AL.has_iff _ _).mpr ⟨vi, hvi⟩
+    have hasj : (statusOf sj).has h = true := (AL.has_iff _ _).mpr ⟨vj, hvj⟩
+    rcases r.pairs i j si sj h vi vj hri hrj hij hvi hvj with ⟨hin, _, _⟩ | ⟨hin, _, _⟩ | ⟨hnni, hnnj, _, _⟩
+    · exact hni1 ⟨hin, j, sj, Ne.symm hij, hrj, hasj⟩
+    · exact hnj1 ⟨hin, i, si, hij, hri, hasi⟩
+    · rcases Sites.gcLess_total env.opt (rtOf env si) (rtOf env sj) i j hij with ⟨h1, _⟩ | ⟨_, h2⟩
+      · exact hni2 ⟨hnni, j, sj, vj, Ne.symm hij, hrj, hvj, hnnj, h1⟩
+      · exact hnj2 ⟨hnnj, i, si, vi, hij, hri, hvi, hnni, h2⟩
+  · intro i sh h hrun hhas
+    obtain ⟨v, hv⟩ := (AL.has_iff _ _).mp hhas
+    have hilt : i < w.replicas := by
+      have := (List.getElem?_eq_some_iff.mp hrun).1
+      rw [hrl] at this; exact this
+    obtain ⟨sh', hs', hk, _⟩ := hall i sh hrun
+    -- either this sidecar keeps it, or the partner that made it drop the target does
+    by_cases hkeep : h ∈ (statusOf sh').keys
+    · exact ⟨i, sh', hilt, hs', (AL.has_iff _ _).mpr ((AL.mem_keys_iff _ _).mp hkeep)⟩
+    · have hdrop : (v.state = .inTransfer ∧ ∃ (k : Nat) (shk : Shard), k ≠ i ∧ w.running[k]? = some shk ∧ (statusOf shk).has h = true) ∨
+          (v.state = .normal ∧ ∃ (k : Nat) (shk : Shard) (vk : St), k ≠ i ∧ w.running[k]? = some shk ∧
+            (statusOf shk).get h = some vk ∧ vk.state = .normal ∧ Gen.gcLess env.opt (rtOf env sh) (rtOf env shk) i k = true) := by
+        apply Classical.byContradiction
+        intro hno
+        simp only [not_or] at hno
+        exact hkeep ((hk h).mpr ⟨v, hv, hno.1, hno.2⟩)
+      -- the partner
+      have partnerKeeps : ∀ (k : Nat) (shk : Shard) (vk : St), k ≠ i → w.running[k]? = some shk →
+          (statusOf shk).get h = some vk →
+          (v.state = .inTransfer ∨ (v.state = .normal ∧ vk.state = .normal ∧ Gen.gcLess env.opt (rtOf env sh) (rtOf env shk) i k = true)) →
+          ∃ (d : Nat) (shd : Shard), d < w.replicas ∧ w'.shards[d]? = some shd ∧ (statusOf shd).has h = true := by
+        intro k shk vk hki hrk hvk hcase
+        have hklt : k < w.replicas := by
+          have := (List.getElem?_eq_some_iff.mp hrk).1
+          rw [hrl] at this; exact this
+        obtain ⟨shk', hsk', hkk, _⟩ := hall k shk hrk
+        refine ⟨k, shk', hklt, hsk', (AL.has_iff _ _).mpr ((AL.mem_keys_iff _ _).mp ((hkk h).mpr ⟨vk, hvk, ?_, ?_⟩))⟩
+        · -- the partner is not an in-transfer copy: it is the normal side of the pair
+          intro ⟨hin, _⟩
+          rcases r.pairs i k sh shk h v vk hrun hrk (Ne.symm hki) hv hvk with ⟨_, hn, _⟩ | ⟨_, hnv, _⟩ | ⟨_, hn, _, _⟩
+          · rw [hin] at hn; cases hn
+          · rcases hcase with hc | ⟨_, hnk, _⟩
+            · rw [hc] at hnv; cases hnv
+            · rw [hin] at hnk; cases hnk
+          · rw [hin] at hn; cases hn
+        · -- and it does not lose the tie-break against anybody: its only possible partner is i
+          intro ⟨hnk, k', shk', vk', hk'k, hrk', hvk', hnk', hless⟩
+          have hk'i : k' = i := by
+            rcases r.two k' k i shk' shk sh h hrk' hrk hrun ((AL.has_iff _ _).mpr ⟨vk', hvk'⟩)
+                ((AL.has_iff _ _).mpr ⟨vk, hvk⟩) hhas with h1 | h1 | h1
+            · exact absurd h1 hk'k
+            · exact h1
+            · exact absurd h1 hki
+          subst hk'i
+          rw [hrun] at hrk'; cases hrk'
+          rw [hv] at hvk'; cases hvk'
+          rcases hcase with hc | ⟨_, _, hl⟩
+          · rw [hc] at hnk'; cases hnk'
+          · rcases Sites.gcLess_total env.opt (rtOf env sh) (rtOf env shk) k' k (Ne.symm hki) with ⟨_, h2⟩ | ⟨h1, _⟩
+            · rw [hless] at h2; cases h2
+            · rw [hl] at h1; cases h1
+      rcases hdrop with ⟨hin, k, shk, hki, hrk, hhk⟩ | ⟨hn, k, shk, vk, hki, hrk, hvk, hnk, hl⟩
+      · obtain ⟨vk, hvk⟩ := (AL.has_iff _ _).mp hhk
+        exact partnerKeeps k shk vk hki hrk hvk (Or.inl hin)
+      · exact partnerKeeps k shk vk hki hrk hvk (Or.inr ⟨hn, hnk, hl⟩)
+
+end Kvass.Loop
